@@ -14,6 +14,8 @@ import z3
 
 from .values import *  # noqa
 from .values import _Int, _Bool, _Real, _Str
+from . import extnum as X
+import math
 
 _handlers = {}
 
@@ -149,6 +151,8 @@ def identical(eng, st, a, b):
         o = b if a is None else a
         if isinstance(o, SUnion):
             return o.is_none()
+        if isinstance(o, SRef) and getattr(o.t, "null", None) is not None:
+            return SBool(o.z == o.t.null)
         return False
     if isinstance(a, SUnion) or isinstance(b, SUnion):
         # compare alternatives pairwise
@@ -186,7 +190,17 @@ def identical(eng, st, a, b):
 def equal(eng, st, a, b):
     """python `==` for values without user-defined __eq__; returns bool | SBool | None (unknown)"""
     if a is None or b is None:
+        o = b if a is None else a
+        if isinstance(o, SRef) and getattr(o.t, "null", None) is not None:
+            return SBool(o.z == o.t.null)
         return a is None and b is None
+    if X.is_extlike(a) or X.is_extlike(b):
+        if not isinstance(a, SV) and not isinstance(b, SV):
+            return a == b
+        ea, eb = X.to_ext(a), X.to_ext(b)
+        if ea is None or eb is None:
+            return False
+        return SBool(X.eq(ea, eb))
     if isinstance(a, (bool, SBool)) and isinstance(b, (bool, SBool)):
         if isinstance(a, bool) and isinstance(b, bool):
             return a == b
@@ -285,6 +299,15 @@ def compare(eng, st, op, a, b, node):
         if isinstance(b, SBool):
             b = SInt(z3.If(b.z, 1, 0))
         num = (int, Fraction, SInt, SReal, bool)
+        if X.is_extlike(a) or X.is_extlike(b):
+            if not isinstance(a, SV) and not isinstance(b, SV):
+                yield st, {ast.Lt: a < b, ast.LtE: a <= b, ast.Gt: a > b, ast.GtE: a >= b}[type(op)]
+                return
+            ea, eb = X.to_ext(a), X.to_ext(b)
+            if ea is None or eb is None:
+                raise Unsupported("ordering of an extended number with a non-number")
+            yield st, SBool(X.compare(op, ea, eb))
+            return
         if isinstance(a, num) and isinstance(b, num):
             f = {ast.Lt: lambda x, y: x < y, ast.LtE: lambda x, y: x <= y,
                  ast.Gt: lambda x, y: x > y, ast.GtE: lambda x, y: x >= y}[type(op)]
@@ -386,6 +409,24 @@ def binop(eng, st, op, a, b, node):
         a = SInt(z3.If(a.z, 1, 0))
     if isinstance(b, SBool) and isinstance(a, num) and not isinstance(op, (ast.BitAnd, ast.BitOr)):
         b = SInt(z3.If(b.z, 1, 0))
+    if X.is_extlike(a) or X.is_extlike(b):
+        if not isinstance(a, SV) and not isinstance(b, SV):
+            try:
+                r = {ast.Add: lambda: a + b, ast.Sub: lambda: a - b, ast.Mult: lambda: a * b}[type(op)]()
+            except KeyError:
+                raise Unsupported(f"binop {type(op).__name__} on floats")
+            if isinstance(r, float) and r == r and r not in (float("inf"), float("-inf")):
+                raise Unsupported("finite float arithmetic")
+            yield st, r
+            return
+        ea, eb = X.to_ext(a), X.to_ext(b)
+        if a is None or b is None:
+            yield st, ExcVal(TypeError, (), eng.where(st, node))
+            return
+        if ea is None or eb is None:
+            raise Unsupported(f"binop on extended number and {a!r} / {b!r}")
+        yield st, X.simplify(X.binop(op, ea, eb))
+        return
     if isinstance(a, num + (bool,)) and isinstance(b, num + (bool,)):
         if not isinstance(a, SV) and not isinstance(b, SV):
             try:
@@ -1229,6 +1270,16 @@ def isinstance_value(eng, st, v, clss):
         return sub(Fraction)
     if isinstance(v, FloatVal):
         return sub(float)
+    if isinstance(v, X.SExt):
+        terms = []
+        if sub(int):
+            terms.append(v.k == X.K_INT)
+        if sub(Fraction):
+            terms.append(v.k == X.K_FRAC)
+        if sub(float):
+            terms.append(v.k >= X.K_NINF)
+        r = z3.simplify(z3.Or(terms)) if terms else z3.BoolVal(False)
+        return True if z3.is_true(r) else (False if z3.is_false(r) else SBool(r))
     if isinstance(v, (SStr,)):
         return sub(str)
     if isinstance(v, SEnum):
@@ -1311,6 +1362,8 @@ def _minmax(is_min):
             for s1, x in eng.force(s, rest[0]):
                 if not isinstance(acc, SV) and not isinstance(x, SV):
                     nacc = (x if x < acc else acc) if is_min else (x if x > acc else acc)
+                elif X.is_extlike(acc) or X.is_extlike(x):
+                    nacc = X.simplify(X.minmax([X.to_ext(acc), X.to_ext(x)], is_min))
                 else:
                     a, b, real = num_pair(acc, x)
                     W = SReal if real else SInt
@@ -1380,6 +1433,20 @@ def _float(eng, st, args, kw, node):
     raise Unsupported("float()")
 
 
+@builtin(math.isnan)
+def _isnan(eng, st, args, kw, node):
+    (v,) = args
+    for s, v in eng.force(st, v):
+        if isinstance(v, X.SExt):
+            yield s, SBool(v.isnan())
+        elif isinstance(v, float):
+            yield s, v != v
+        elif isinstance(v, (int, Fraction, SInt, SReal)):
+            yield s, False
+        else:
+            raise Unsupported(f"math.isnan({v!r})")
+
+
 @builtin(bool)
 def _bool(eng, st, args, kw, node):
     if not args:
@@ -1416,6 +1483,12 @@ def _fraction(eng, st, args, kw, node):
                 ax = z3.If(x >= 0, x, -x)
                 s.assume(r - x <= eps * ax, x - r <= eps * ax)
                 yield s, SReal(r)
+            elif isinstance(v, X.SExt):
+                for s1, fin in eng.branch(s, v.finite(), "Fraction(ext)"):
+                    if fin:
+                        yield s1, SReal(v.v)
+                    else:
+                        yield s1, ExcVal(OverflowError, (), eng.where(s1, node))
             elif isinstance(v, float):
                 if v != v or v in (float("inf"), float("-inf")):
                     yield s, ExcVal(OverflowError if v == v else ValueError, (), eng.where(s, node))
